@@ -127,6 +127,22 @@ def apply(obj, ev: dict):
         return obj.contract(a["a"], a["b"])
     if op == "collapse":
         d = np.array(a["dims"], dtype=int)
+        # sum / max / min are homogeneous under a positive factor.  For data of a narrow integer type the scaled entries
+        # (the largest factor that keeps them
+        # in range) still fit the element type while a sum of two of them need not
+        arr = obj.data if isinstance(obj, ttb.tensor) else obj.vals if isinstance(obj, ttb.sptensor) else None
+        if a["red"] in ("sum", "max", "min") and arr is not None and arr.size and arr.dtype.kind in "iu" and arr.dtype.itemsize <= 2 \
+                and np.max(np.abs(arr.astype(np.int64))) > 0:
+            cf = int(np.iinfo(arr.dtype).max // np.max(np.abs(arr.astype(np.int64))))
+            c = arr.dtype.type(cf)
+            big = ttb.tensor(obj.data * c) if isinstance(obj, ttb.tensor) else ttb.sptensor(obj.subs.copy(), obj.vals * c, obj.shape)
+            r = apply(big, dict(ev, args=dict(a, red=a["red"] + "!")))
+            if isinstance(r, ttb.tensor):
+                return ttb.tensor(r.data / float(cf))
+            if isinstance(r, ttb.sptensor):
+                return ttb.sptensor(r.subs.copy(), r.vals / float(cf), r.shape) if r.nnz else r
+            return np.asarray(r) / float(cf) if isinstance(r, np.ndarray) else r / float(cf)
+        a = dict(a, red=a["red"].rstrip("!"))
         if isinstance(obj, ttb.sptensor) and a["red"] == "sum":
             return obj.collapse(d)        # default reducer (sum)
         if a["red"] == "halfsum":
